@@ -286,6 +286,9 @@ func gpipe(args []string) error {
 				rec, oc := pipe.RunGated(append([]byte{}, doc.Text...), false, cp, nil, sc.mk(), *seed+int64(caseNo), append([]byte{}, sc.pk...))
 				rep.Evaluations++
 				emit(rec, id)
+				if os.Getenv("VH_DEBUG") != "" {
+					fmt.Fprintf(os.Stderr, "%s %s nbuf=%d bad=%d s1bad=%v copy=%v -> err=%v hang=%v steps=%d pblk=%d cblk=%d %s\n", id, sc.name, nbuf, badAt, s1bad, cp, oc.Err, oc.Hang, oc.Steps, oc.ProdBlk, oc.ConsBlk, oc.Trace)
+				}
 				cfg := map[string]interface{}{"schedule": sc.name, "copy": cp, "nbuf": nbuf, "bad_at": badAt, "s1bad": s1bad, "steps": oc.Steps, "producer_blocked": oc.ProdBlk, "consumer_blocked": oc.ConsBlk}
 				sig := fmt.Sprintf("%s:nbuf=%d:bad=%d:s1bad=%v", sc.name, nbuf, badAt, s1bad)
 				if oc.ProdBlk > 0 && oc.ConsBlk > 0 {
